@@ -38,7 +38,7 @@ type Sched struct {
 	Coop bool
 
 	mu     sync.Mutex
-	parked map[string]chan struct{}
+	parked map[string][]chan struct{}
 	rng    *rand.Rand
 	// Enabled, if non-nil, restricts which labels actually park (others pass).
 	Enabled func(label string) bool
@@ -46,7 +46,7 @@ type Sched struct {
 }
 
 func New(coop bool, seed int64) *Sched {
-	return &Sched{Coop: coop, parked: map[string]chan struct{}{}, rng: rand.New(rand.NewSource(seed))}
+	return &Sched{Coop: coop, parked: map[string][]chan struct{}{}, rng: rand.New(rand.NewSource(seed))}
 }
 
 // Gate parks the calling goroutine under label until Release(label).
@@ -65,12 +65,8 @@ func (s *Sched) Gate(label string) {
 		s.mu.Unlock()
 		return
 	}
-	if _, dup := s.parked[label]; dup {
-		s.mu.Unlock()
-		panic("sched: duplicate gate label " + label)
-	}
 	ch := make(chan struct{})
-	s.parked[label] = ch
+	s.parked[label] = append(s.parked[label], ch) // several goroutines may wait at one label (FIFO)
 	s.mu.Unlock()
 	<-ch
 }
@@ -98,14 +94,18 @@ func (s *Sched) IsParked(label string) bool {
 // system is quiescent again.  It returns false if nothing is parked there.
 func (s *Sched) Release(label string) bool {
 	s.mu.Lock()
-	ch, ok := s.parked[label]
-	if ok {
-		delete(s.parked, label)
-	}
-	s.mu.Unlock()
-	if !ok {
+	q := s.parked[label]
+	if len(q) == 0 {
+		s.mu.Unlock()
 		return false
 	}
+	ch := q[0]
+	if len(q) == 1 {
+		delete(s.parked, label)
+	} else {
+		s.parked[label] = q[1:]
+	}
+	s.mu.Unlock()
 	close(ch)
 	synctest.Wait()
 	return true
@@ -123,10 +123,12 @@ func (s *Sched) OpenAll() {
 	s.mu.Lock()
 	s.opened = true
 	chs := s.parked
-	s.parked = map[string]chan struct{}{}
+	s.parked = map[string][]chan struct{}{}
 	s.mu.Unlock()
-	for _, ch := range chs {
-		close(ch)
+	for _, q := range chs {
+		for _, ch := range q {
+			close(ch)
+		}
 	}
 	if s.Coop {
 		synctest.Wait()
